@@ -82,11 +82,22 @@ def run(ctx: Context) -> None:
         hh = N.func("http11", "AsyncHTTP11Connection._receive_response_headers")
         td = [n for n in own_nodes(hh.node) if isinstance(n, ast.Assign) and "self._h11_state.trailing_data" in norm(n.value)]
         loops = [l for l in own_nodes(hh.node) if isinstance(l, ast.While)]
-        ok = bool(td) and bool(loops) and td[0].lineno > loops[0].end_lineno and isinstance(td[0].targets[0], ast.Tuple) and norm(td[0].targets[0].elts[0]) == "trailing_data"
+        # the read happens after the LAST event was taken from h11: no `_receive_event` is reachable from it
+        def _after_last_event(a: ast.AST) -> bool:
+            g = ctx.cfg(hh)
+            ns = g.nodes_for(a)
+            if not ns:
+                return False
+            reach = g.reachable([e.dst for e in ns[0].succ if e.kind != "exc"], follow=lambda e: e.kind != "exc")
+            return not any(n.id in reach and n.ast is not None and any(isinstance(x, ast.Call) and norm(x.func) == "self._receive_event" for x in ast.walk(n.ast) if n.kind in ("stmt", "with_enter"))
+                           for n in g.nodes)
+        ok = bool(td) and bool(loops) and all(_after_last_event(a) for a in td) and isinstance(td[0].targets[0], ast.Tuple) and norm(td[0].targets[0].elts[0]) == "trailing_data"
         rt = [r for r in own_nodes(hh.node) if isinstance(r, ast.Return) and isinstance(r.value, ast.Tuple)]
-        ok = ok and bool(rt) and norm(rt[0].value.elts[-1]) == "trailing_data"
+        all_rets = [r for r in own_nodes(hh.node) if isinstance(r, ast.Return)]
+        ok = ok and bool(rt) and len(rt) == len(all_rets)
         if ok:
-            alts = [norm(a) for a in ctx.prov.expand(rt[0].value.elts[-1], hh, rt[0], depth=1)]
+            # EVERY return hands on what h11 consumed past the head
+            alts = sorted({norm(a) for r in rt for a in ctx.prov.expand(r.value.elts[-1], hh, r, depth=1)})
             ok = alts == ["__unpack__(self._h11_state.trailing_data)[0]"]
             if not ok:
                 td = td  # keep anchor
